@@ -201,10 +201,10 @@ abstract_contract("Condition", "__invert__", [],
 INV = dict(inv_scope=NS + ["Flag", "InverseFlag"], chain_ensures=True, check_frame=False, props=["C08"])
 contract("usim._primitives.flag.Flag.__invert__",
          params={"self": REF("Flag")}, returns=REF("InverseFlag"),
-         ensures=["result is self._inverse", "bool(result) == (not bool(self))"], modifies=[], **INV)
+         ensures=["result is self._inverse", "bool(result) == (not bool(self))", "forall(Condition, lambda c: implies(not fresh_obj(c), bool(c) == old(bool(c))))"], modifies=[], **INV)
 contract("usim._primitives.flag.InverseFlag.__invert__",
          params={"self": REF("InverseFlag")}, returns=REF("Flag"),
-         ensures=["result is self._event", "bool(result) == (not bool(self))"], modifies=[], **INV)
+         ensures=["result is self._event", "bool(result) == (not bool(self))", "forall(Condition, lambda c: implies(not fresh_obj(c), bool(c) == old(bool(c))))"], modifies=[], **INV)
 # De Morgan (All.__invert__ / Any.__invert__ map `~` over the children inside a generator expression): not under contract --
 # the engine has no summary for comprehensions whose element expression allocates; listed as a gap of C08.
 
